@@ -542,7 +542,7 @@ class PyCdlib:
                  'udf_logical_volume_integrity', 'udf_boots',
                  'udf_logical_volume_integrity_terminator', 'udf_root',
                  'udf_file_set', 'udf_file_set_terminator',
-                 'logical_block_size')
+                 'logical_block_size', '_opened')
 
     def _initialize(self):
         # type: () -> None
@@ -556,6 +556,7 @@ class PyCdlib:
          Nothing.
         """
         self._cdfp = io.BytesIO()  # type: IO[Any]
+        self._opened = False
         self.svds = []  # type: List[headervd.PrimaryOrSupplementaryVD]
         self.brs = []  # type: List[headervd.BootRecord]
         self.vdsts = []  # type: List[headervd.VolumeDescriptorSetTerminator]
@@ -2327,6 +2328,7 @@ class PyCdlib:
             fp = utils.Win32RawDevice(fp.name)
 
         self._cdfp = fp
+        self._opened = True
 
         # Get the Primary Volume Descriptor (pvd), the set of Supplementary
         # Volume Descriptors (svds), the set of Volume Partition
@@ -4616,6 +4618,9 @@ class PyCdlib:
         """
         if not self._initialized:
             raise pycdlibexception.PyCdlibInvalidInput('This object is not initialized; call either open() or new() to create an ISO')
+
+        if not self._opened:
+            raise pycdlibexception.PyCdlibInvalidInput('Only an ISO that was opened can be modified in place')
 
         if hasattr(self._cdfp, 'mode') and not self._cdfp.mode.startswith(('r+', 'w', 'a', 'rb+')):
             raise pycdlibexception.PyCdlibInvalidInput('To modify a file in place, the original ISO must have been opened in a write mode (r+, w, or a)')
